@@ -1,6 +1,7 @@
 package c06
 
 import (
+	"bytes"
 	"fmt"
 	"math"
 	"sort"
@@ -35,11 +36,17 @@ type Case struct {
 	I    int    `json:"i"`    // iteration / callback index at which the exit is taken
 	K    uint64 `json:"k"`    // 0: unlimited; else SetMaxExecutionSteps(K)
 	Src  string `json:"src,omitempty"`
+	// Reloaded: the case program is compiled, written with Program.Write, read back
+	// with CompiledProgram and initialised, instead of being executed from source.
+	Reloaded bool `json:"reloaded,omitempty"`
 }
 
 // groupKey is the identity used in violation keys: construct + collection
 // kind (nesting, site, mutator, exit and cancellation point are in the case).
 func (cs *Case) groupKey() string {
+	if cs.Reloaded {
+		return fmt.Sprintf("%s(program written and read back)|%s", cs.Cons, cs.Kind)
+	}
 	return fmt.Sprintf("%s|%s", cs.Cons, cs.Kind)
 }
 
@@ -451,6 +458,17 @@ func (h *harness) post(th *starlark.Thread, x starlark.Value, refContent string,
 	if c := mutlib.Ser(x); c != refContent && !alias {
 		return &finding{"content-changed", fmt.Sprintf("content after the run %s differs from the initial content %s although every mutation attempt had to fail", c, refContent)}
 	}
+	// (b2) if the execution was cancelled, the thread stays cancelled: a call made now
+	// is refused, and it too leaves the stack and the collection as they were
+	if ref != nil && out.Err {
+		_, err := starlark.Call(th, h.reuse, starlark.Tuple{x}, nil)
+		if d := th.CallStackDepth(); d != 0 {
+			return &finding{"call-stack-depth", fmt.Sprintf("CallStackDepth()=%d after a call on the still-cancelled thread (that call returned: %v)", d, err)}
+		}
+		if n := iterCount(x); n != 0 {
+			return &finding{"lock-leak", fmt.Sprintf("a call on the still-cancelled thread left %d live iterator(s) on the collection", n)}
+		}
+	}
 	// (c) thread and value remain usable
 	resetThread(th)
 	want := int64(starlark.Len(x))
@@ -497,7 +515,23 @@ func (h *harness) prepare(cs *Case) error {
 		h.mut = m
 	}
 	src := cs.source()
-	g, err := starlark.ExecFileOptions(fileOpts, newThread("compile"), "case.star", src, h.pre)
+	var g starlark.StringDict
+	var err error
+	if cs.Reloaded {
+		// the same program after Program.Write and CompiledProgram: what a host that caches compiled files runs
+		var p, p2 *starlark.Program
+		_, p, err = starlark.SourceProgramOptions(fileOpts, "case.star", src, h.pre.Has)
+		if err == nil {
+			var buf bytes.Buffer
+			if err = p.Write(&buf); err == nil {
+				if p2, err = starlark.CompiledProgram(&buf); err == nil {
+					g, err = p2.Init(newThread("compile"), h.pre)
+				}
+			}
+		}
+	} else {
+		g, err = starlark.ExecFileOptions(fileOpts, newThread("compile"), "case.star", src, h.pre)
+	}
 	if err != nil {
 		return fmt.Errorf("case program does not compile: %v\n%s", err, src)
 	}
